@@ -24,7 +24,9 @@ RULE = ("every arrangement is executed on the real backend()/get_user_command()/
         "in its command, `i`/`g`: the handler calls input_to(fn, F) / get_char(fn, F) with flags word F while the same user "
         "has further lines typed ahead, F in {0x1000, 0x7fffffff, 0x80} for input_to and {0x1000} for get_char (thorough: "
         "all of 0,1,2,4,0x10,0x20,0x40,0x80,0x100,0x400,0x800,0x1000,0x7fffffff for both), offered for the first user with "
-        ">= 2 lines}; one mid-cycle event {a new user connects in cycle c and sends a line in the next cycle, a live user "
+        ">= 2 lines; `e`/`x`/`j`: the line raises an uncaught error in process_input / in its verb / in the input_to callback "
+        "that receives the user's second line, with further lines queued behind (first user with >= 2, for `j` >= 3 lines)}; "
+        "one mid-cycle event {a new user connects in cycle c and sends a line in the next cycle, a live user "
         "hangs up (EVENT_CLOSE) in cycle c, the peer of a live user whose output is still pending (send() answered "
         "EWOULDBLOCK since it connected) vanishes in cycle c without any event: the flush inside the command scan gets "
         "EPIPE} for c in 1..4 (quick tier: 1..2); long backlog: one line-mode network user pastes 300 numbered lines in one "
@@ -38,7 +40,9 @@ RULE = ("every arrangement is executed on the real backend()/get_user_command()/
         "order and content; the three command() calls run inside the turn of `m`; the wait is entered with timeout 0 while "
         "a complete command is buffered")
 
-ASSUME = ["a command counts as buffered from the cycle whose process_io() received its last byte",
+ASSUME = ["an uncaught error in a command ends that cycle's command phase (longjmp to the top of the loop): users not yet served in it "
+          "are expected in the next cycle, which the loop enters without blocking (counted: turns_put_off_by_an_uncaught_error)",
+          "a command counts as buffered from the cycle whose process_io() received its last byte",
           "single-character mode: every buffered byte is a complete command; the callback may be handed several bytes at once",
           "modes do not change while input is buffered (get_char is armed at logon and re-armed by its callback)",
           "hang-ups are reported as EVENT_CLOSE (the recv()==0 path is C09's subject); a user whose peer vanished is not required to be served any more, the others are",
@@ -50,14 +54,15 @@ def run(ck):
         # two passes over the same base arrangements, the small deviation classes first so that a deadline hit under
         # machine load cuts into the bulk, not into them (the union is what --dev=63 explores; the base is run twice)
         q = ["--midcycles=2", "--console-scripts=3"]
-        ck.explore(exe, q + ["--dev=52"], "b1-flags-vanish-backlog", budget=1, deadline_s=95)
-        ck.explore(exe, q + ["--dev=11"], "b1-cmode-mq-connect-hangup", budget=1, deadline_s=115)
+        ck.explore(exe, q + ["--dev=116"], "b1-flags-vanish-backlog-errors", budget=1, deadline_s=100)
+        ck.explore(exe, q + ["--dev=11"], "b1-cmode-mq-connect-hangup", budget=1, deadline_s=110)
     else:
         ck.explore(exe, ["--full-flags=1", "--full-backlog=1"], "b2-full", budget=2, deadline_s=2000)
     cov = vlib.mc_coverage(ck.parts, RULE, extra={
         "arrangements_completed": sum(p.get("counters", {}).get("arrangements_completed", 0) for p in ck.parts),
         "buffered_commands_served": sum(p.get("counters", {}).get("buffered_commands_served", 0) for p in ck.parts),
         "cycles_evaluated": sum(p.get("counters", {}).get("cycles_evaluated", 0) for p in ck.parts),
+        "turns_put_off_by_an_uncaught_error": sum(p.get("counters", {}).get("turns_put_off_by_an_uncaught_error", 0) for p in ck.parts),
         "backlog_runs_in_shift_region": sum(p.get("counters", {}).get("backlog_runs_in_shift_region", 0) for p in ck.parts)})
     ck.finish(cov, assumptions=ASSUME)
 
